@@ -89,7 +89,8 @@ Inductive eop :=
 | ERemoveExisting (ds : list nat) (d1 : N)
 | EAdd (ds : list nat) (d1 : N)
 | EBackendPut (d : nat)
-| EBackendDel (d : nat).
+| EBackendDel (d : nat)
+| EGfc (p : nat) (fault : Z).                   (* decorator GetFromComposite of the child of parent p *)
 
 Record est := mkest { cache : ec; now : N; backend : list nat }.
 
@@ -120,6 +121,10 @@ Definition estep (size : nat) (dur : N) (o : eop) (s : est) : eobs * est :=
       (mkeobs 0 [] None [t1], mkest (ec_add size t1 ds (cache s)) t1 (backend s))
   | EBackendPut d => (mkeobs 0 [] None [], mkest (cache s) (now s) (insert_sorted d (backend s)))
   | EBackendDel d => (mkeobs 0 [] None [], mkest (cache s) (now s) (remove_nat d (backend s)))
+  | EGfc p fault =>
+      (* ExistenceCachingBlobAccess embeds the backend: a composite read is the
+         backend's, the cache is neither consulted (no clock reading) nor updated *)
+      (mkeobs (if negb (Z.eqb fault 0) then fault else if memn p (backend s) then 0 else 5) [] (Some [p]) [], s)
   end.
 
 Fixpoint erun (size : nat) (dur : N) (ops : list eop) (s : est) : list eobs * est :=
